@@ -52,8 +52,21 @@ def run_mc(ctx, st):
         res["infra"].append(tlc_error_text(r))
         return res
     summ = os.path.join(ctx["work"], st["name"] + ".summary.json")
-    p = subprocess.run([ctx["harness"], "replay", "-in", out, "-out", summ, "-prop", ctx["pid"],
-                        "-replaydir", ctx["replaydir"]], cwd=ctx["verif"], text=True, capture_output=True)
+    harness = ctx["harness"]
+    env = dict(os.environ)
+    if st.get("race"):
+        # the same behaviours under the Go race detector: a report aborts the process with exit code 66
+        harness = ctx["build_harness"](ctx["work"], race=True)
+        env["GORACE"] = "halt_on_error=1 exitcode=66"
+    p = subprocess.run([harness, "replay", "-in", out, "-out", summ, "-prop", ctx["pid"],
+                        "-replaydir", ctx["replaydir"]], cwd=ctx["verif"], text=True, capture_output=True, env=env)
+    if st.get("race") and p.returncode == 66:
+        path = os.path.join(ctx["replaydir"], "%s-race-%s.txt" % (ctx["pid"], st["name"]))
+        open(path, "w").write(p.stderr[-20000:])
+        res["violations"].append(dict(replay=path, why="the Go race detector reported a data race while replaying %s: %s" % (
+            st["cfg"], " ".join(p.stderr.split("\n")[:12])[:600])))
+        res["evaluations"] = 0
+        return res
     if not os.path.exists(summ):
         res["infra"].append("harness replay produced no summary: " + p.stdout[-2000:] + p.stderr[-2000:])
         return res
@@ -96,12 +109,25 @@ def run_trace(ctx, st):
     if not os.path.isdir(specdir):
         import shutil
         shutil.copytree(os.path.join(ctx["verif"], "spec"), specdir)
+    # each trace stage validates in its own copy of the spec directory (stages run in parallel and all read trace.ndjson)
+    import shutil
+    specdir = os.path.join(ctx["work"], "spec-" + st["name"])
+    shutil.copytree(os.path.join(ctx["work"], "spec"), specdir)
     tracefile = os.path.join(specdir, st.get("tracefile", "trace.ndjson"))
     harness = ctx["harness"]
     if st.get("race"):
         harness = ctx["build_harness"](ctx["work"], race=True)
-    cmd = [harness, "record"] + [str(a) for a in st["record"]] + ["-out", tracefile, "-seed", str(ctx["seed"])]
-    p = subprocess.run(cmd, cwd=ctx["verif"], text=True, capture_output=True, timeout=st.get("timeout", 3000))
+    cmd = [harness, "record"] + [str(a) for a in st["record"]] + ["-out", tracefile, "-seed", str(ctx["seed"]), "-repo", ctx["repo"]]
+    env = dict(os.environ)
+    if st.get("race"):
+        env["GORACE"] = "halt_on_error=1 exitcode=66"
+    p = subprocess.run(cmd, cwd=ctx["verif"], text=True, capture_output=True, timeout=st.get("timeout", 3000), env=env)
+    if st.get("race") and p.returncode == 66:
+        path = os.path.join(ctx["replaydir"], "%s-race-%s.txt" % (ctx["pid"], st["name"]))
+        open(path, "w").write(p.stderr[-20000:])
+        res["violations"].append(dict(replay=path, why="the Go race detector reported a data race during the free-running stress: " +
+                                      " ".join(p.stderr.split("\n")[:12])[:600]))
+        return res
     if p.returncode != 0 or not os.path.exists(tracefile):
         res["infra"].append("recorder failed rc=%d: %s %s" % (p.returncode, p.stdout[-1500:], p.stderr[-1500:]))
         return res
@@ -116,7 +142,7 @@ def run_trace(ctx, st):
                 res["samples"].append(json.loads(line))
     out = os.path.join(ctx["work"], st["name"] + ".out")
     r = ctx["run_tlc"](ctx["work"], st["module"], st["cfg"], out, mode="bfs", workers=1, timeout=st.get("timeout", 3000),
-                       extra_java=st.get("java", ""))
+                       extra_java=st.get("java", ""), specdir=specdir)
     res["tlc_runs"].append(r)
     reached = total = None
     with open(out, errors="replace") as f:
@@ -163,7 +189,8 @@ def run_design(ctx, st):
                        workers=st.get("workers"))
     res["tlc_runs"].append(r)
     expect = st.get("expect_rc", 0)
-    if r["rc"] != expect:
+    expect = expect if isinstance(expect, (list, tuple)) else [expect]
+    if r["rc"] not in expect:
         res["infra"].append("design-level check failed (specification error, not a verdict about the code): " + tlc_error_text(r))
     res["note"] = st.get("note", "")
     return res
@@ -345,7 +372,7 @@ PROPS["C01"] = dict(
 def _c02(tier):
     st = [mc("histories-2-calls", "MC_C02.tla", "MC_C02_quick.cfg", min_cases=1000, workers=6),
           mc("histories-3-calls-single-input-models", "MC_C02.tla", "MC_C02_quick3.cfg", min_cases=1000, workers=6),
-          design("asis-effects-antivacuity", "MC_C02.tla", "MC_C02_asis.cfg", expect_rc=13, workers=2,
+          design("asis-effects-antivacuity", "MC_C02.tla", "MC_C02_asis.cfg", expect_rc=[12, 13], workers=2,
                  note="with the as-is effect summaries (in-place reshape of bias / initial state / ArgMax input) TLC must find a history that violates WeightsAndCallerTensorsImmutable")]
     if tier == "thorough":
         st.append(mc("histories-3-calls", "MC_C02.tla", "MC_C02_thorough.cfg", min_cases=50000, timeout=3000))
@@ -375,5 +402,26 @@ PROPS["C16"] = dict(
     stages=lambda tier: [
         mc("batch-exact", "MC_C16.tla", "MC_C16_%s.cfg" % tier, min_cases=250, workers=8),
         trace("sample-models-batch-relation", ["batch", "-n", "15" if tier == "quick" else "120"], "Trace_Batch.tla", "Trace_Batch.cfg"),
+    ],
+)
+
+PROPS["C17"] = dict(
+    rule="(S) TLC on Interp with 2 Runs in flight whose node life cycles (Gather/Apply/Bind) interleave freely: NoConflict, weights and "
+         "caller tensors immutable (action property), ConcurrentEqualsSequential; with the as-is effect summaries TLC must produce the "
+         "racing schedule (anti-vacuity). (A) every node-granular interleaving of 2 Runs (own inputs, different batch sizes) over 5 "
+         "models covering every operator family that reads weights or attribute tensors (Conv bias, GRU/LSTM/RNN initial state, "
+         "Scaler, LinearRegressor, Constant, Gemm), each also in the variant where adjacent nodes of different Runs execute at the same "
+         "time, forced on real goroutines through the blocking spy operator while a third goroutine keeps loading models; every "
+         "schedule is executed twice: normally (outputs vs spec, snapshots of inputs and weights) and under the Go race detector. "
+         "(B) free-running stress: 2..16 goroutines on the sample models under the race detector, recorded and validated against "
+         "Trace_Conc.tla; non-trivial = every schedule / every recorded Run",
+    assumptions=["interleavings are exhaustive at node granularity only; below that the race detector observes the executed schedules",
+                 "the Run a spy call belongs to is identified by its goroutine id"],
+    stages=lambda tier: [
+        mc("schedules", "MC_C17.tla", "MC_C17_sched.cfg", min_cases=100, workers=4),
+        mc("schedules-race-detector", "MC_C17.tla", "MC_C17_sched.cfg", min_cases=100, workers=4, race=True),
+        design("fine-grained-interleavings", "MC_C17.tla", "MC_C17_fine.cfg", workers=4, note="NoConflict, ConcurrentEqualsSequential, immutability under every interleaving of the node life cycle"),
+        design("asis-effects-antivacuity", "MC_C17.tla", "MC_C17_asis.cfg", expect_rc=[12, 13], workers=2, note="with in-place effects TLC must find the racing schedule"),
+        trace("free-running-stress-race-detector", ["conc", "-n", "12" if tier == "quick" else "60"], "Trace_Conc.tla", "Trace_Conc.cfg", race=True),
     ],
 )
